@@ -1,6 +1,7 @@
 //! Cases that go straight to the verification hooks of the library (`--cfg bpaf_verif`).
 use crate::build::leak;
 use crate::sexp::{hex, to_hex, Sexp};
+#[cfg(feature = "autocomplete")]
 use bpaf::ShellComp;
 
 fn text(s: &Sexp) -> Result<String, String> {
@@ -106,6 +107,75 @@ pub fn run_cmdmatch(l: &[Sexp]) -> (String, String) {
         let name = leak(hex(&l[2])?)?;
         let short = short_of(&l[3])?;
         Ok(format!("MATCH\t{}", bpaf::verif_hooks::verif_cmd_matches(&arg, name, short).is_some()))
+    };
+    match body() {
+        Ok(s) => (id, s),
+        Err(e) => (id, format!("BADCASE\t{}", e)),
+    }
+}
+
+/// `(rdoc ID (doc (t STYLE HEX) (s BLOCK) (e BLOCK) ..) (full 0|1) (th HEX ..))`: the html and roff renderers applied to an
+/// explicit token list (balanced or not), through `Doc::verif_from_tokens` / `Doc::verif_render_roff`
+#[cfg(feature = "docgen")]
+pub fn run_rdoc(l: &[Sexp]) -> (String, String) {
+    let id = l[0].atom().unwrap_or("?").to_string();
+    let body = || -> Result<String, String> {
+        let mut toks: Vec<(u8, u8, String)> = Vec::new();
+        let mut full = true;
+        let mut th: Vec<String> = Vec::new();
+        for f in &l[1..] {
+            if let Some(xs) = f.headed("doc") {
+                for x in xs {
+                    if let Some(t) = x.headed("t") {
+                        let st = match t[0].atom()? {
+                            "text" => 0,
+                            "emphasis" => 1,
+                            "literal" => 2,
+                            "metavar" => 3,
+                            "invalid" => 4,
+                            o => return Err(format!("bad style {}", o)),
+                        };
+                        toks.push((0, st, text(&t[1])?));
+                    } else {
+                        let (k, b) = if let Some(b) = x.headed("s") { (1, b) } else if let Some(b) = x.headed("e") { (2, b) } else {
+                            return Err("bad token".into());
+                        };
+                        let code = match b[0].atom()? {
+                            "header" => 0,
+                            "section2" => 1,
+                            "section3" => 2,
+                            "itemterm" => 3,
+                            "itembody" => 4,
+                            "definitionlist" => 5,
+                            "block" => 6,
+                            "inlineblock" => 7,
+                            "termref" => 8,
+                            "meta" => 9,
+                            "mono" => 10,
+                            o => return Err(format!("bad block {}", o)),
+                        };
+                        toks.push((k, code, String::new()));
+                    }
+                }
+            } else if let Some(x) = f.headed("full") {
+                full = !x[0].is_atom("0");
+            } else if let Some(xs) = f.headed("th") {
+                for x in xs {
+                    th.push(text(x)?);
+                }
+            }
+        }
+        let doc = bpaf::Doc::verif_from_tokens(&toks);
+        let html = match std::panic::catch_unwind(std::panic::AssertUnwindSafe(|| doc.render_html(full, false))) {
+            Ok(s) => to_hex(s.as_bytes()),
+            Err(_) => "PANIC".to_string(),
+        };
+        let thr: Vec<&str> = th.iter().map(String::as_str).collect();
+        let roff = match std::panic::catch_unwind(std::panic::AssertUnwindSafe(|| doc.verif_render_roff(&thr))) {
+            Ok(s) => to_hex(s.as_bytes()),
+            Err(_) => "PANIC".to_string(),
+        };
+        Ok(format!("RDOC\t{}\t{}", html, roff))
     };
     match body() {
         Ok(s) => (id, s),
